@@ -428,13 +428,19 @@ def rule_c_d(repo, chk):
     chk.ob('d', h.ref, 'the parser is never dropped on a path that then just waits for more data', bad is None, loc(h, h.node),
            path=pat.path_lines(bad) if bad else None, discr='kept-on-wait')
     # parser fetched per connection and fed with exactly the new data
-    fetch = [n for n in g.nodes if n.kind == 'stmt' and isinstance(n.ast, ast.Assign) and src(n.ast.value) == f'self._buffers[{sock}]']
+    fetch = [n for n in g.nodes if n.kind == 'stmt' and isinstance(n.ast, ast.Assign) and src(n.ast.value).replace(', None)', ')') in (f'self._buffers[{sock}]', f'self._buffers.get({sock})')]
     new = [n for n in g.nodes if n.kind == 'stmt' and isinstance(n.ast, ast.Assign) and 'HttpParser(' in src(n.ast.value) and
            any(src(t) == f'self._buffers[{sock}]' for t in n.ast.targets)]
     chk.ob('d', h.ref, 'the parser is looked up per connection and created (and stored) for a new one', bool(fetch) and bool(new), loc(h, h.node),
            discr='parser-per-connection')
+    getv = {n.ast.targets[0].id for n in fetch if '.get(' in src(n.ast.value) and isinstance(n.ast.targets[0], ast.Name)}
+    absent = pat.test_edge(lambda tt, pol: pat.fact_matches(pat.compare_fact(tt, pol), sock, ('not in',), 'self._buffers') or
+                           any(pat.fact_matches(pat.compare_fact(tt, pol), v, ('is', '=='), 'None') for v in getv))
     for n in fetch:
-        q = pat.guarded_by(g, n, pat.test_edge(lambda tt, pol: pat.fact_matches(pat.compare_fact(tt, pol), sock, ('in',), 'self._buffers')))
+        # `if sock in self._buffers: parser = self._buffers[sock]`, or `parser = self._buffers.get(sock)`; a new parser only when there is none
+        q = None if '.get(' in src(n.ast.value) else pat.guarded_by(g, n, pat.test_edge(lambda tt, pol: pat.fact_matches(pat.compare_fact(tt, pol), sock, ('in',), 'self._buffers')))
+        for m in new:
+            q = q or pat.guarded_by(g, m, absent)
         chk.ob('d', h.ref, 'an existing parser is reused while its message is incomplete', q is None, loc(h, n.ast), discr='parser-reused')
     execs = [c for _r, c in pat.method_calls(h.node, 'execute')]
     ok = len(execs) == 1 and [src(a) for a in execs[0].args] == [h.params[2], f'len({h.params[2]})']
@@ -442,6 +448,8 @@ def rule_c_d(repo, chk):
     # client side
     c = repo.func(PROTO_HTTP, 'HTTP._on_client_read')
     chk.touch(c)
+    from .common import snapshot_view
+    c = snapshot_view(c)
     gc = c.cfg()
     rs = [n for n in gc.nodes if n.kind == 'stmt' and pat.fires(n.ast, 'response')]
     need(rs, 'C13.c: the client never fires response')
